@@ -80,6 +80,9 @@ def addLink (a rel b : String) (props : Option Props) (A : AGraph) : AR :=
     | none => (.ok .unit, addEdge a b [(propClass, .str rel)] A)
     | some p => if AMap.has propClass p then (.error .type_, A) else (.ok .unit, addEdge a b ((propClass, .str rel) :: p) A)))
 
+/-- a single-value update is never handed `None` (the bulk updates store it) -/
+def assertVal (v : Val) (A : AGraph) (k : AR) : AR := if v = .none then (.error .assertion, A) else k
+
 def updateNodeProperty (nid k : String) (v : Val) (A : AGraph) : AR :=
   if k = nxLabel then (.error .query, A) else withN A nid (.ok .unit, updNode nid (AMap.set k v) A)
 
@@ -178,11 +181,11 @@ def step (op : Op) (other : AGraph) (A : AGraph) : AR :=
   | .addNode _ nid label props => addNode nid label props A
   | .deleteNode _ nid => deleteNode nid A
   | .addLink _ a rel b props => addLink a rel b props A
-  | .updateNodeProperty _ nid k v => updateNodeProperty nid k v A
+  | .updateNodeProperty _ nid k v => assertVal v A (updateNodeProperty nid k v A)
   | .unsetNodeProperty _ nid k => unsetNodeProperty nid k A
-  | .updateNodesProperty _ k v => updateNodesProperty k v A
+  | .updateNodesProperty _ k v => assertVal v A (updateNodesProperty k v A)
   | .updateNodeProperties _ nid props => updateNodeProperties nid props A
-  | .updateLinkProperty _ a b kind k v => updateLinkProperty a b kind k v A
+  | .updateLinkProperty _ a b kind k v => assertVal v A (updateLinkProperty a b kind k v A)
   | .unsetLinkProperty _ a b kind k => unsetLinkProperty a b kind k A
   | .updateLinkProperties _ a b kind props => updateLinkProperties a b kind props A
   | .deleteGraph _ => (.ok .unit, empty)
